@@ -110,6 +110,11 @@ func (x *Exec) paramNames(fn *ssa.Function, spec *FuncSpec) []string {
 func (x *Exec) callFunc(fr *Frame, st *State, fn *ssa.Function, free []Value, args []Value, pos token.Pos) Value {
 	key := x.P.funcKey(fn)
 	spec := x.P.specs.Funcs[key]
+	if cp := callerPkg(fr.fn); cp != "" {
+		if s2 := x.P.specs.Funcs["@"+cp+":"+key]; s2 != nil {
+			spec = s2
+		}
+	}
 	var rt types.Type
 	res := fn.Signature.Results()
 	if res.Len() == 1 {
@@ -751,4 +756,14 @@ func (x *Exec) checkClosure(fr *Frame, st *State, cl Closure, cb *FuncSpec, call
 			x.em.oblige(o)
 		}
 	}
+}
+
+func callerPkg(fn *ssa.Function) string {
+	for fn != nil {
+		if fn.Pkg != nil {
+			return fn.Pkg.Pkg.Name()
+		}
+		fn = fn.Parent()
+	}
+	return ""
 }
